@@ -76,6 +76,19 @@ CLAIMED["C06"] = (
     "DESIGN.md §5 C06",
 )
 
+CLAIMED["C20"] = (
+    "Exhaustive, kernel-evaluated obligations over tables REGENERATED on every run from the live enum classes (reflection), "
+    "autoshape_types, the shipped XSDs and presetShapeDefinitions.xml: per enumeration, XML tokens pairwise distinct (hence, "
+    "by a generic proved lemma, from_xml(to_xml m) = m for every member) and contained in the schema enumeration resolved "
+    "through the attribute declarations; every auto-shape row's preset exists and its adjustment names, order and defaults "
+    "equal the standard's.  Members listed as known findings are excluded from the distinctness obligation only after a "
+    "companion obligation proves they really are later duplicates.  Dynamic cross-check: to_xml/from_xml on every member, "
+    "every auto-shape type added and read back, every writable chart type added and chart_type read back.",
+    "Trusted: the translator (reflection + XSD enumeration extraction); the reading of the standard's upDownArrow/upArrow erratum.",
+    "translator-regenerated tables + Lean `decide +kernel` obligations + generic round-trip lemma",
+    "DESIGN.md §5 C20",
+)
+
 NOT_YET = {}
 
 
